@@ -7,8 +7,10 @@ from geom import fd_glyphs_json
 from ufo import build, rat
 
 ID = "C02"
-PROOF_FILES = ["Geom", "Reverse", "Render", "Flatten", "GoodCert", "C02", "C02Skip"]
-THEOREM = "Ufo2ft.C02.C02_mixed / C02_render / C02_render_skip / C02_mixed_skip / C02_flatten / C02_points_perm / depth facts (+ shared geometry theorems)"
+PROOF_FILES = ["Geom", "Reverse", "Render", "Flatten", "GoodCert", "C02", "C02Skip", "C02Drop"]
+THEOREM = ("Ufo2ft.C02.C02_mixed / C02_render / C02_render_skip / C02_mixed_skip / C02_flatten / C02_points_perm / depth facts (+ shared geometry theorems); "
+           "dropImpliedOnCurves: C02_drop_render / C02_drop_idempotent / C02_drop_round / C02_drop_round_bound / C02_drop_spec / "
+           "C02_drop_joint_compatible / C02_drop_joint_subset / C02_drop_joint_spec")
 N = {"quick": 160, "thorough": 3000}
 RULE = ("random fonts (line / quadratic contours incl. contours starting off-curve, open contours; component graphs depth<=4 with "
         "F2Dot14-exact matrices incl. mirrors/shears, half-integer offsets; mixed glyphs; shared bases/diamonds) x {convertCubics, "
@@ -16,12 +18,29 @@ RULE = ("random fonts (line / quadratic contours incl. contours starting off-cur
         "ends), every component record and maxp's component statistics are compared with the Lean model; glyphs with cubic segments "
         "(simple glyphs only) are measured: the deviation of the un-rounded quadratic spline produced by the pre-processor from the source "
         "cubic is sampled (256 points per segment) and must stay within cubicConversionError*unitsPerEm. non-trivial = a mixed glyph or a "
-        "composite of depth>=2 exists and some contour starts off-curve or some component is mirrored.")
+        "composite of depth>=2 exists and some contour starts off-curve or some component is mirrored. "
+        "dropImpliedOnCurves=True (n/3 more fonts): contours built from off-curve points on the 1/8 grid (45% integers, 35% halves) with, between two "
+        "consecutive off-curve points, an on-curve point exactly at the midpoint / at the midpoint only after rounding / just off it (1/8..2) / free / "
+        "two on-curve points / none (already implied); 15% of the contours have every on-curve point implied (an all-off-curve contour is left); any start "
+        "point (also a dropped first or last point); degenerate [off, on] pairs; inside component graphs with transforms, mixed glyphs decomposed; "
+        "through compileTTF(dropImpliedOnCurves=True) x {convertCubics, reverseDirection}: every glyf point compared with the model, and judged by "
+        "the declarative predicate (sub-list of the rounded source points; expanded outline = expanded source outline within 1/2; nothing impliable left); "
+        "non-trivial = a point was dropped.  Joint (n/12 more designspaces): 2-3 point-compatible masters of 1-3 glyphs, the same slots in every master, "
+        "a slot that is a midpoint in one master is off the midpoint in another with probability 0.35; the default master is any of them; 8% (search: 25%) "
+        "with one master's flags changed (incompatible); through compileVariableTTF(dropImpliedOnCurves=True, convertCubics=False) - every third designspace instead with the default options (convertCubics=True: "
+        "fonts_to_quadratic), the masters then being the implementation's own compileInterpolatableTTFsFromDS output (unrounded, undropped) -: the variable font's "
+        "default glyf entry per glyph compared with the model (`vfDefault`) and judged by `holdsJoint` (the default master's outline within rounding; the "
+        "point set left fits EVERY master); every gvar tuple must address exactly the points left + 4.")
 ASSUMED = ["cu2qu (curve_to_quadratic) is external: its error bound is measured on the pre-processor's un-rounded output, not proved",
-           "glyf binary encoding/decoding and maxp.recalc are fontTools'", "dropImpliedOnCurves=False only (the default)"]
+           "glyf binary encoding/decoding and maxp.recalc are fontTools'",
+           "dropImpliedOnCurves: fontTools' dropImpliedOnCurvePoints / _is_mid_point are modelled from their source (fontTools 4.55) and tied through the "
+           "compiled fonts only; `math.isclose` (rel_tol 1e-9) is modelled as equality of rationals (the generated coordinates are dyadic, where the two "
+           "coincide); only quadratic glyphs (flags 0/1) - glyf-v1 cubic off-curve flags (allQuadratic=False) are not modelled",
+           "dropImpliedOnCurves in the variable path: masters are taken as the modelled pre-processing of each source (convertCubics=False; reversal "
+           "optional); cubic masters (fonts_to_quadratic) with the option are not tied; of the variable font only the default master's glyf entry and the "
+           "gvar tuples' point counts are observed, not the deltas' values"]
 
-
-def gen(rng, n, mode):
+def _gen_base(rng, n, mode):
     for i in range(n):
         cubic = (i % 4 == 3)
         mats = ["id", "id", "mirrorx", "mirrory", "rot90", "rot180", "swap", "half", "shear", "shear2", "sc15", "nonuni", "mirrorshear"]
@@ -57,6 +76,132 @@ def gen(rng, n, mode):
         yield {"fd": fd, "skip": skip, "cubic": cubic, "err": err, "convertCubics": True if cubic else rng.random() < 0.7,
                "reverseDirection": rng.random() < 0.75, "flatten": flatten, "lib": rng.choice(["ufoLib2", "defcon"]),
                "allQuadratic": True}
+
+
+# ---------------------------------------------------------------- dropImpliedOnCurves=True
+
+def _q(rng, lim=300):
+    """an off-curve coordinate: integers, halves, quarters and eighths (all exact doubles, and so are their midpoints)"""
+    k = rng.randrange(-lim, lim + 1)
+    r = rng.random()
+    if r < 0.45:
+        return k
+    if r < 0.8:
+        return k + 0.5
+    return k + rng.choice([0.25, 0.75, 0.125, 0.375])
+
+
+def _slot_kinds(rng, nslots, mode):
+    """what stands between two consecutive off-curve points: an on-curve point exactly at their midpoint ("mid"), one that
+    is the midpoint only after rounding ("rmid"), one just off the midpoint ("off"), a free on-curve point ("free"), two
+    on-curve points ("line"), or nothing ("impl": the point is already implied in the source)"""
+    w = {"mid": 5, "rmid": 2, "off": 2, "free": 2, "line": 1, "impl": 1}
+    if mode == "search":
+        w = {"mid": 4, "rmid": 4, "off": 4, "free": 1, "line": 1, "impl": 1}
+    pool = [k for k, v in w.items() for _ in range(v)]
+    kinds = [rng.choice(pool) for _ in range(nslots)]
+    if rng.random() < 0.15:
+        kinds = ["mid"] * nslots          # every on-curve point is implied: an all-off-curve contour is left
+    if all(k == "impl" for k in kinds):
+        kinds[0] = "free"                 # a source contour without on-curve points is not generated
+    return kinds
+
+
+def _fill_slot(rng, kind, a, b):
+    """the on-curve point(s) between off-curve points a and b"""
+    mx, my = (a[0] + b[0]) / 2, (a[1] + b[1]) / 2
+    if kind == "mid":
+        return [[mx, my, "qcurve"]]
+    if kind == "rmid":
+        # rounded(a) + rounded(b) == 2 * rounded(p) but p is not the midpoint: only possible when the rounded sum is even
+        from fontTools.misc.roundTools import otRound
+        sx, sy = otRound(a[0]) + otRound(b[0]), otRound(a[1]) + otRound(b[1])
+        px = sx // 2 + rng.choice([-0.25, 0.25, 0.375, -0.5, 0.125]) if sx % 2 == 0 else mx
+        py = sy // 2 + rng.choice([-0.25, 0.25, 0.375, -0.5, 0.125]) if sy % 2 == 0 else my
+        return [[px, py, "qcurve"]]
+    if kind == "off":
+        d = rng.choice([0.125, 0.25, 0.5, 1, -0.125, -0.5, -1, 2])
+        return [[mx + d, my, "qcurve"]] if rng.random() < 0.5 else [[mx, my + d, "qcurve"]]
+    if kind == "free":
+        return [[_q(rng), _q(rng), "qcurve"]]
+    if kind == "line":
+        return [[_q(rng), _q(rng), "qcurve"], [_q(rng), _q(rng), "line"]]
+    return []
+
+
+def drop_contour(rng, mode="normal", recipe=None):
+    """a closed quadratic contour: off-curve points with `slots` between them; returns (points, recipe)"""
+    if recipe is None:
+        n = rng.choice([1, 2, 2, 3, 3, 4, 5, 6])
+        recipe = {"kinds": _slot_kinds(rng, n, mode), "rot": rng.randrange(0, 3 * n)}
+    n = len(recipe["kinds"])
+    offs = [[_q(rng), _q(rng)] for _ in range(n)]
+    pts = []
+    for i in range(n):
+        pts.append([offs[i][0], offs[i][1], None])
+        pts.extend(_fill_slot(rng, recipe["kinds"][i], offs[i], offs[(i + 1) % n]))
+    # with one off-curve point the slot closes on the point itself: [off, on-at-the-same-place] is a legal, degenerate case
+    r = recipe["rot"] % len(pts)
+    pts = pts[r:] + pts[:r]
+    # a point that follows an off-curve point must be "qcurve", one that follows an on-curve point "line"
+    for i, p in enumerate(pts):
+        if p[2] is not None:
+            p[2] = "qcurve" if pts[i - 1][2] is None else "line"
+    return pts, recipe
+
+
+def _gen_drop(rng, n, mode):
+    mats = ["id", "id", "mirrorx", "mirrory", "rot90", "rot180", "swap", "half", "shear", "sc15"]
+    for i in range(n):
+        fd = outline_font(rng, nglyphs=rng.choice([1, 2, 3, 5]), kinds=("line", "qcurve"), grid=8, half=0.3, mats=mats,
+                          maxdepth=3, pcomp=0.4, mixed=0.4, offstart=True, open_=0.0, offgrid=4)
+        for g in fd["glyphs"]:
+            g["contours"] = [drop_contour(rng, mode)[0] if rng.random() < 0.85 else c for c in g["contours"]]
+        yield {"fd": fd, "skip": [], "cubic": False, "err": None, "convertCubics": rng.random() < 0.6,
+               "reverseDirection": rng.random() < 0.7, "flatten": False, "lib": rng.choice(["ufoLib2", "defcon"]),
+               "allQuadratic": True, "drop": True}
+
+
+def _gen_joint(rng, n, mode):
+    for i in range(n):
+        nm = rng.choice([2, 2, 3])
+        names = rng.sample(["A", "B", "C", "x", "y"], rng.choice([1, 2, 3]))
+        glyphs = {}
+        for nm_ in names:
+            recs = [drop_contour(rng, mode)[1] for _ in range(rng.choice([1, 1, 2]))]
+            # the same recipe in every master: same flags; where a slot is "mid" a master may put the point off the midpoint
+            ms = []
+            for k in range(nm):
+                cs = []
+                for rec in recs:
+                    r2 = dict(rec)
+                    if k > 0 or rng.random() < 0.3:
+                        r2["kinds"] = [("off" if kd in ("mid", "rmid") and rng.random() < 0.35 else kd) for kd in rec["kinds"]]
+                    cs.append(drop_contour(rng, mode, r2)[0])
+                ms.append(cs)
+            glyphs[nm_] = ms
+        bad = None
+        if rng.random() < (0.25 if mode == "search" else 0.08):
+            # malformed: one master of one glyph gets another flag pattern (an off-curve point turned on-curve)
+            bn = rng.choice(names); bk = rng.randrange(nm)
+            for c in glyphs[bn][bk]:
+                offs = [p for p in c if p[2] is None]
+                if offs:
+                    offs[0][2] = "line"; bad = [bn, bk]
+                    for j, p in enumerate(c):
+                        if p[2] is not None:
+                            p[2] = "qcurve" if c[j - 1][2] is None else "line"
+                    break
+        yield {"joint": True, "names": names, "masters": [[glyphs[g][k] for g in names] for k in range(nm)],
+               "dflt": rng.randrange(nm), "reverseDirection": rng.random() < 0.6, "lib": rng.choice(["ufoLib2", "defcon"]),
+               "bad": bad, "direct": i % 3 == 2 and bad is None}   # incompatible masters are rejected up-front by fonts_to_quadratic
+
+
+def gen(rng, n, mode):
+    yield from _gen_base(rng, n, mode)
+    # the same generator state as before for the streams above; the new streams come after them
+    yield from _gen_drop(rng, max(8, n // 3), mode)
+    yield from _gen_joint(rng, max(4, n // 12), mode)
 
 
 def _bez3(p0, p1, p2, p3, t):
@@ -116,9 +261,105 @@ def _maxdev(src_polys, dst_polys):
     return worst
 
 
+def _glyf_contours(tt, name):
+    glyf = tt["glyf"]
+    g = glyf[name]
+    cs, start = [], 0
+    if g.numberOfContours > 0:
+        coords, ends, flags = g.getCoordinates(glyf)
+        for e in ends:
+            cs.append([[coords[k][0], coords[k][1], bool(flags[k] & 1)] for k in range(start, e + 1)])
+            start = e + 1
+    return cs
+
+
+def _run_joint(case):
+    """a variable font through compileVariableTTF(ds, dropImpliedOnCurves=True): masters are compiled unrounded and
+    undropped, varLib prunes jointly; observed: the default master's glyf entry and the gvar tuples' point counts"""
+    import ufo2ft
+    from fontTools.designspaceLib import AxisDescriptor, DesignSpaceDocument, SourceDescriptor
+    from fontTools.ttLib import TTFont
+    names, masters, dflt = case["names"], case["masters"], case["dflt"]
+    nm = len(masters)
+    locs = [400 + 100 * k for k in range(nm)]
+    ds = DesignSpaceDocument()
+    ax = AxisDescriptor()
+    ax.name, ax.tag, ax.minimum, ax.default, ax.maximum = "Weight", "wght", locs[0], locs[dflt], locs[-1]
+    ds.addAxis(ax)
+    for k in range(nm):
+        fd = {"upm": 1000, "info": {"familyName": "C02 Joint", "styleName": "M%d" % k}, "lib": {},
+              "glyphs": [{"name": n, "width": 500, "unicodes": [], "contours": masters[k][gi], "components": [], "anchors": []}
+                         for gi, n in enumerate(names)]}
+        src = SourceDescriptor()
+        src.font = build(fd, case["lib"])
+        src.name, src.familyName, src.styleName, src.location = "master%d" % k, "C02 Joint", "M%d" % k, {"Weight": locs[k]}
+        ds.addSource(src)
+    out = []
+    direct = bool(case.get("direct"))
+    # "direct" sub-stream: the default options (convertCubics=True: fonts_to_quadratic re-draws every glyph through segment
+    # pens); the masters the joint drop starts from are then taken from the implementation itself, compiled by
+    # compileInterpolatableTTFsFromDS (unrounded floats, nothing dropped) from an identical designspace
+    kw = {"useProductionNames": False, "reverseDirection": case["reverseDirection"]}
+    if not direct:
+        kw["convertCubics"] = False
+    dmasters = None
+    try:
+        if direct:
+            ds2 = DesignSpaceDocument()
+            ds2.addAxis(ax)
+            for k, s0 in enumerate(ds.sources):
+                s2 = SourceDescriptor()
+                fd = {"upm": 1000, "info": {"familyName": "C02 Joint", "styleName": "M%d" % k}, "lib": {},
+                      "glyphs": [{"name": n, "width": 500, "unicodes": [], "contours": masters[k][gi], "components": [], "anchors": []}
+                                 for gi, n in enumerate(names)]}
+                s2.font = build(fd, case["lib"])
+                s2.name, s2.familyName, s2.styleName, s2.location = s0.name, s0.familyName, s0.styleName, dict(s0.location)
+                ds2.addSource(s2)
+            mds = ufo2ft.compileInterpolatableTTFsFromDS(ds2, **kw)
+            dmasters = []
+            for s2 in mds.sources:
+                glyf = s2.font["glyf"]
+                per = []
+                for n in names:
+                    g = glyf[n]
+                    cs, start = [], 0
+                    if g.numberOfContours > 0:
+                        for e in g.endPtsOfContours:
+                            cs.append([[rat(g.coordinates[j][0]), rat(g.coordinates[j][1]), bool(g.flags[j] & 1)] for j in range(start, e + 1)])
+                            start = e + 1
+                    per.append(cs)
+                dmasters.append(per)
+        tt = ufo2ft.compileVariableTTF(ds, dropImpliedOnCurves=True, **kw)
+        buf = io.BytesIO(); tt.save(buf); buf.seek(0)
+        tt = TTFont(buf)
+        err = None
+    except Exception as e:
+        tt, err = None, type(e).__name__
+    for gi, n in enumerate(names):
+        if tt is None:
+            obs = {"err": err}
+        else:
+            var = tt["gvar"].variations.get(n, []) if "gvar" in tt else []
+            obs = {"err": None, "contours": _glyf_contours(tt, n), "gvar": [len(v.coordinates) for v in var]}
+        if direct and dmasters is not None:
+            inp = {"masters": [dmasters[k][gi] for k in range(nm)], "dflt": dflt, "direct": True}
+        else:
+            inp = {"masters": [[[[rat(x), rat(y), t] for x, y, t in c] for c in masters[k][gi]] for k in range(nm)],
+                   "dflt": dflt, "convertCubics": False, "reverseDirection": case["reverseDirection"]}
+        isbad = bool(case.get("bad")) and case["bad"][0] == n
+        npts_src = sum(len(c) for c in masters[dflt][gi])
+        npts_obs = sum(len(c) for c in obs.get("contours", [])) if obs.get("err") is None else npts_src
+        tags = ["joint", "joint-direct" if direct else "joint-source", "masters:%d" % nm, "rev:%s" % case["reverseDirection"], case["lib"], "err:" + str(obs.get("err")),
+                "dropped" if npts_obs < npts_src else "nodrop"] + (["incompatible"] if isbad else [])
+        out.append({"op": "joint", "in": inp, "obs": obs, "tags": tags, "nontrivial": npts_obs < npts_src})
+    return out
+
+
 def run(case):
     import ufo2ft
     from fontTools.ttLib import TTFont
+    if case.get("joint"):
+        return _run_joint(case)
     fd = case["fd"]
     font = build(fd, case["lib"])
     kw = {"useProductionNames": False, "convertCubics": case["convertCubics"], "reverseDirection": case["reverseDirection"],
@@ -127,6 +368,8 @@ def run(case):
         kw["cubicConversionError"] = case["err"]
     if case.get("skip"):
         kw["skipExportGlyphs"] = list(case["skip"])
+    if case.get("drop"):
+        kw["dropImpliedOnCurves"] = True
     obs = {"err": None}
     try:
         tt = ufo2ft.compileTTF(font, **kw)
@@ -178,19 +421,29 @@ def run(case):
         obs = {"err": type(e).__name__}
     inp = {"glyphs": fd_glyphs_json(fd), "convertCubics": case["convertCubics"], "reverseDirection": case["reverseDirection"],
            "flatten": case["flatten"], "skip": case.get("skip") or []}
+    dropped = False
+    if case.get("drop"):
+        inp["drop"] = True
+        # a point is missing from some simple glyph that has no components in the source
+        src_pts = {g["name"]: sum(len(c) for c in g["contours"]) for g in fd["glyphs"] if not g["components"]}
+        dropped = any(g["kind"] == "simple" and g["name"] in src_pts and sum(len(c) for c in g["contours"]) < src_pts[g["name"]]
+                      for g in obs.get("glyphs", []))
     mixed = any(g["contours"] and g["components"] for g in fd["glyphs"])
     neg = any(t[0] * t[3] - t[1] * t[2] < 0 for g in fd["glyphs"] for _, t in g["components"])
     off = any(c and c[0][2] is None for g in fd["glyphs"] for c in g["contours"])
     tags = ["cubic" if case["cubic"] else "linequad", "cc:%s" % case["convertCubics"], "rev:%s" % case["reverseDirection"],
             "flat:%s" % case["flatten"], case["lib"], "err:" + str(obs.get("err"))] + (["mixed"] if mixed else []) + (["skip"] if case.get("skip") else []) + \
-        (["det<0"] if neg else []) + (["offstart"] if off else [])
-    return [{"op": "font", "in": inp, "obs": obs, "tags": tags, "nontrivial": (mixed and (neg or off)) or case["cubic"]}]
+        (["det<0"] if neg else []) + (["offstart"] if off else []) + ((["drop", "dropped" if dropped else "nodrop"]) if case.get("drop") else [])
+    return [{"op": "font", "in": inp, "obs": obs, "tags": tags,
+             "nontrivial": dropped if case.get("drop") else ((mixed and (neg or off)) or case["cubic"])}]
 
 
 def agree(req, rep):
     m, o = rep["model"], req["obs"]
     if m.get("err") is not None or o.get("err") is not None:
         return (m.get("err") is not None) == (o.get("err") is not None)
+    if req["op"] == "joint":
+        return m["contours"] == o["contours"]
     mg = {g["name"]: g for g in m["glyphs"]}
     for g in o["glyphs"]:
         e = mg.get(g["name"])
@@ -210,6 +463,23 @@ def agree(req, rep):
 
 
 def shrink(case):
+    if case.get("joint"):
+        # fewer glyphs, then fewer contours per glyph (in every master alike)
+        for gi in range(len(case["names"]) - 1, -1, -1):
+            if len(case["names"]) > 1:
+                c = dict(case); c["names"] = case["names"][:gi] + case["names"][gi + 1:]
+                c["masters"] = [m[:gi] + m[gi + 1:] for m in case["masters"]]
+                if case.get("bad") and case["bad"][0] not in c["names"]:
+                    c["bad"] = None
+                yield c
+        for gi in range(len(case["names"])):
+            nc = len(case["masters"][0][gi])
+            for ci in range(nc - 1, -1, -1):
+                if nc > 1:
+                    c = dict(case)
+                    c["masters"] = [[g[:ci] + g[ci + 1:] if j == gi else g for j, g in enumerate(m)] for m in case["masters"]]
+                    yield c
+        return
     gl = case["fd"]["glyphs"]
     for s_ in case.get("skip") or []:
         c = dict(case); c["skip"] = [x for x in case["skip"] if x != s_]
@@ -235,6 +505,22 @@ LEVEL_TEXT = ("Proved (Lean, all inputs): after the TrueType pre-processing step
               "draws what it drew (decompose with the has-contours include predicate, then flatten; any traversal order); flattened composites "
               "reference only non-composite glyphs; with a skip-export list every exported glyph still draws a permutation of its source contours (C02_render_skip) and on the compiled font every component reference resolves to a glyph present, none skipped, and the observed references interpreted over the source draw the source contours; re-anchoring and reversal permute a closed contour's points; the DFS depth used for the "
               "traversal order under-counts on shared bases (witness) while maxp is the true depth. Line/quadratic glyphs are compared point "
-              "for point with the compiled glyf table; cubic conversion is measured against cubicConversionError*unitsPerEm (cu2qu is external).")
+              "for point with the compiled glyf table; cubic conversion is measured against cubicConversionError*unitsPerEm (cu2qu is external). "
+              "dropImpliedOnCurves=True (Props/C02Drop.lean, all closed contours of any length): `drop_outline` - leaving out on-curve points that lie between two "
+              "off-curve points and are D-near their midpoint leaves the expanded outline (every implied point written out) D-near point for point, started one "
+              "point later exactly when the first point is left out; hence C02_drop_render (on the integer grid, and for the exact half of the rule on all "
+              "rational contours: the expanded outline is the SAME list - also when only off-curve points are left, witness C02_drop_all_off), "
+              "C02_drop_round (the static path tests on the unrounded coordinates and rounds afterwards: the compiled contour's expansion is the source's within 1/2 "
+              "per coordinate, flags equal), C02_drop_round_bound / _sharp / _vs_undropped (against the contour compiled without the option the implied point "
+              "differs from the stored one by at most 1/2, attained at (0,0),(1/2,1/2),(1,1)), C02_drop_rounded_only (a point dropped by the rounded half of "
+              "`_is_mid_point` only), C02_drop_idempotent and C02_drop_round_idempotent / C02_drop_maximal (nothing impliable is left, also after rounding), "
+              "C02_drop_spec / C02_drop_glyph_spec_max (the model meets the predicate compiled fonts are judged by); joint: C02_drop_joint_subset(_idx) (the dropped "
+              "set is the intersection of the masters' droppable sets; witness: a point impliable in one master only is kept in all), C02_drop_joint_compatible "
+              "(one mask for all masters; afterwards the same contour count, flags and contour ends; every master keeps each contour's outline - within rounding, "
+              "exactly on the integer grid), C02_drop_joint_error (ValueError iff two participating masters differ in flags / contour structure), "
+              "C02_drop_joint_spec (what is left in the variable font's default glyf entry satisfies the joint predicate, for every list of masters).")
 LEVEL_NOTE = ("Trusted: Lean kernel + standard axioms; correspondence harness; glyf codec and maxp.recalc (fontTools); cu2qu's error bound is "
-              "a measured hypothesis (partial for the cubic clause); dropImpliedOnCurves=True is not modelled.")
+              "a measured hypothesis (partial for the cubic clause); dropImpliedOnCurves=True is modelled for quadratic glyphs (fontTools' "
+              "dropImpliedOnCurvePoints read from source, `math.isclose` as exact equality) and tied through compileTTF and compileVariableTTF "
+              "(default master's glyf entry + gvar point counts; convertCubics=False in the variable stream); mutants that only move the rounding before the "
+              "test (single or joint) keep the property and are reported as model disagreements without a failing input.")
